@@ -253,7 +253,15 @@ export function iso(_isographLiteralText: string):
                     format!(
                         "    case '{}':
       return entrypoint_{};\n",
-                        entrypoint_declaration_info.iso_literal_text,
+                        // The literal text is emitted inside a single-quoted string, which cannot span
+                        // lines; at runtime a template literal's line terminators are all line feeds.
+                        entrypoint_declaration_info
+                            .iso_literal_text
+                            .to_string()
+                            .replace("\r\n", "\n")
+                            .replace('\r', "\n")
+                            .replace('\n', "\\n")
+                            .replace('\'', "\\'"),
                         field
                             .entity_name_and_selectable_name()
                             .underscore_separated()
